@@ -66,7 +66,20 @@ fn main() {
             let mut r = if regress_failure.is_some() {
                 driver::RunResult { stats: driver::Stats::default(), failure: None }
             } else {
-                driver::run(engine, id, seed, cases, threads, max_len, hang, &replay_dir)
+                // saved inputs of this property (one hex string per line, `-` for the empty input,
+                // `#` starts a comment): evaluated before the generated cases
+                let corpus: Vec<Vec<u8>> = arg(&args, "--corpus")
+                    .and_then(|p| std::fs::read_to_string(p).ok())
+                    .map(|t| {
+                        t.lines()
+                            .filter_map(|l| {
+                                let tok = l.split('#').next().unwrap_or("").split_whitespace().next()?;
+                                Some(if tok == "-" { Vec::new() } else { driver::unhex(tok) })
+                            })
+                            .collect()
+                    })
+                    .unwrap_or_default();
+                driver::run(engine, id, seed, cases, threads, max_len, hang, &replay_dir, &corpus)
             };
             r.stats.regress_cases = n_regress as u64;
             let mut storm_failed = false;
@@ -81,7 +94,7 @@ fn main() {
                     if scases > 0 {
                         driver::STORM_PHASE.store(true, std::sync::atomic::Ordering::SeqCst);
                         crash::install(&format!("{}/crash-{}-{}.storm.bin", replay_dir, id, driver::config_name()));
-                        let sr = driver::run(se, id, seed ^ 0x5707, scases, sthreads, slen, hang, &replay_dir);
+                        let sr = driver::run(se, id, seed ^ 0x5707, scases, sthreads, slen, hang, &replay_dir, &[]);
                         let st = sr.stats;
                         r.stats.evaluations += st.evaluations;
                         r.stats.nontrivial_evals += st.nontrivial_evals;
